@@ -100,7 +100,7 @@ pub fn drive09(a: &Args, m: &mut Mon, sink: &mut Sink) {
     m.floors(FLOORS09);
     canaries09(m, sink);
     let mut r = Rng::lane(a.seed, "C09", a.shard, 0);
-    let n = a.n(6_000, 300_000);
+    let n = a.n(6_000, 600_000);
     for _ in 0..n {
         logint_one!(m, sink, &mut r, Poly0, 0);
         logint_one!(m, sink, &mut r, Poly1, 1);
@@ -269,7 +269,7 @@ pub fn drive10(a: &Args, m: &mut Mon, sink: &mut Sink) {
             }
         }
     }
-    let n = a.n(100_000, 3_000_000);
+    let n = a.n(100_000, 10_000_000);
     // dense deterministic sweep of x in [-40, 40] (shard-interleaved) in addition to the random lanes
     let step = if a.thorough() { 1e-3 } else { 1e-2 };
     let mut xi = -40.0 + step * a.shard as f64;
